@@ -228,6 +228,7 @@ struct Exec {
 	uint64_t cb_budget = 0;
 	std::string strbuf;     // storage for the value produced by the string parse callback
 	bool any_root_created = false;
+	uint64_t default_alloc_budget = 1000000;
 };
 
 static Exec *E = nullptr;
@@ -725,6 +726,7 @@ static void run_op(int client, const json &op, OpResult &r)
 	int key = client * 1000 + cx;
 
 	// per-op fault and callback configuration
+	W.op_alloc_budget = E->default_alloc_budget;
 	W.fail_at = op.value("falloc", (uint64_t)0);
 	E->cb_fail_at = op.value("fcb", (uint64_t)0);
 	E->cb_verdict = op.value("fcbv", 1);
@@ -813,6 +815,17 @@ static void run_op(int client, const json &op, OpResult &r)
 		std::string sk = src.value("kind", std::string("buf"));
 		E->res.start_conds.push_back(r.start_cond_before);
 		W.tty = E->opts.tty_override >= 0 ? E->opts.tty_override != 0 : src.value("tty", (*E->plan).contains("knobs") ? (*E->plan)["knobs"].value("tty", false) : false);
+		{
+			// step budget scales with the input (DESIGN 4.3): a loop that keeps allocating trips it
+			uint64_t bytes = 0;
+			for (auto &kv : W.fs)
+				bytes += kv.second.bytes.size();
+			if (sk != "file")
+				bytes += source_text(src).size();
+			const json &kn = (*E->plan).contains("knobs") ? (*E->plan)["knobs"] : EMPTY;
+			if (!kn.contains("alloc_budget"))
+				W.op_alloc_budget = 100000 + 200 * bytes;
+		}
 		if (sk == "buf") {
 			std::string text = source_text(src);
 			// cfg_parse_buf takes a C string: an embedded NUL ends the text
@@ -985,7 +998,8 @@ RunResult execute(const json &plan, const ExecOpts &opts)
 	const json knobs = plan.contains("knobs") ? plan["knobs"] : json::object();
 	W.fill = (unsigned char)(opts.fill_override >= 0 ? opts.fill_override : knobs.value("fill", 0xA5));
 	W.default_chunk = knobs.value("chunk", (size_t)0);
-	W.op_alloc_budget = knobs.value("alloc_budget", (uint64_t)2000000);
+	W.op_alloc_budget = knobs.value("alloc_budget", (uint64_t)1000000);
+	ex.default_alloc_budget = W.op_alloc_budget;
 	W.op_read_budget = knobs.value("read_budget", (uint64_t)1000000);
 	ex.cb_budget = knobs.value("cb_budget", (uint64_t)1000000);
 	apply_world(plan);
